@@ -9,6 +9,7 @@ and non-member values) and the enum scenarios of the repository.
 import Gv.Model.Eval
 import Gv.Model.Gen
 import Gv.Proofs.EvalLemmas
+import Gv.Proofs.EnumLemmas
 
 namespace Gv.Props.C08
 open Gv Gv.Str Gv.Eval Gv.Gen
@@ -139,5 +140,147 @@ theorem C08_later_transformer_overrides (tmap m : List (S × S)) (name y : S) (h
   rw [hfun]
   rw [List.lookup_append, hnone]
   simpa using h
+
+/-! ### the generated mapping is total and name-driven (`Gv.Gen.enumPlan`) -/
+
+open Gv.EnumLemmas in
+/-- what a successful `enumPlan` went through -/
+theorem enumPlan_inv (c : Converter) (cx : Ctx) (s t : Ty) (path : List PathElem) (st st' : GState) (r : Conv)
+    (h : enumPlan c cx s t path st = .ok (r, st')) :
+    ∃ sm tm tmap acc dflt s1 s2 s3,
+      enumMembers c cx.cfg.common s = some sm ∧ enumMembers c cx.cfg.common t = some tm ∧
+      enumTransformers c sm tm cx.cfg.transformers [] = .ok tmap ∧
+      enumCases cx path tm tmap sm { remaining := if cx.fieldsTarget == t then cx.cfg.enumMap.map (·.1) else [] } s1 = .ok (acc, s2) ∧
+      cx.cfg.common.enumUnknown.isEmpty = false ∧
+      enumAction cx path tm cx.cfg.common.enumUnknown s2 = .ok (dflt, s3) ∧
+      acc.remaining.isEmpty = true ∧ r = .enumc acc.cases dflt := by
+  unfold enumPlan at h
+  cases hsm : enumMembers c cx.cfg.common s with
+  | none => rw [hsm] at h; simp only [] at h; exact absurd h (by rw [M_fail_ok]; exact id)
+  | some sm =>
+    rw [hsm] at h; simp only [] at h
+    cases htm : enumMembers c cx.cfg.common t with
+    | none => rw [htm] at h; simp only [] at h; exact absurd h (by rw [M_fail_ok]; exact id)
+    | some tm =>
+      rw [htm] at h; simp only [] at h
+      obtain ⟨tmap, s1, h1, h2⟩ := (M_bind_ok _ _ _ _).1 h
+      cases htr : enumTransformers c sm tm cx.cfg.transformers [] with
+      | error e => rw [htr] at h1; simp only [] at h1; exact absurd h1 (by rw [M_fail_ok]; exact id)
+      | ok tmap' =>
+        rw [htr] at h1; simp only [] at h1
+        have := (M_pure_ok _ _ _).1 h1
+        cases this
+        obtain ⟨acc, s2, h3, h4⟩ := (M_bind_ok _ _ _ _).1 h2
+        split at h4
+        · exact absurd h4 (by
+            intro h4
+            obtain ⟨_, _, hf, _⟩ := (M_bind_ok _ _ _ _).1 h4
+            exact (M_fail_ok _ _ _).1 hf)
+        · rename_i hunk
+          obtain ⟨dflt, s3, h6, h7⟩ := (M_bind_ok _ _ _ _).1 h4
+          split at h7
+          · exact absurd h7 (by
+              intro h7
+              obtain ⟨_, _, hf, _⟩ := (M_bind_ok _ _ _ _).1 h7
+              exact (M_fail_ok _ _ _).1 hf)
+          · rename_i hrem
+            have := (M_pure_ok _ _ _).1 h7
+            cases this
+            exact ⟨sm, tm, tmap, acc, dflt, _, _, _, rfl, rfl, htr, h3, by simpa using hunk, h6, by simpa using hrem, rfl⟩
+
+open Gv.EnumLemmas in
+/-- **total**: a generated enum conversion has a case for the value of EVERY declared member of the source enum (members
+sharing a value share the case), and a configured unknown policy for everything else -/
+theorem C08_total (c : Converter) (cx : Ctx) (s t : Ty) (path : List PathElem) (st st' : GState) (r : Conv)
+    (h : enumPlan c cx s t path st = .ok (r, st')) :
+    ∃ sm cases dflt, enumMembers c cx.cfg.common s = some sm ∧ r = .enumc cases dflt ∧
+      cx.cfg.common.enumUnknown.isEmpty = false ∧ ∀ sd, sd ∈ sm → ∃ x, x ∈ cases ∧ x.2.1 = sd.val := by
+  obtain ⟨sm, tm, tmap, acc, dflt, s1, s2, s3, hsm, _, _, hc, hu, _, _, hr⟩ := enumPlan_inv c cx s t path st st' r h
+  obtain ⟨_, _, hcov⟩ := enumCases_cover cx path tm tmap sm _ acc s1 s2 hc (by simp [Sync])
+  exact ⟨sm, acc.cases, dflt, hsm, hr, hu, hcov⟩
+
+open Gv.EnumLemmas in
+/-- **name-driven**: every case belongs to a source member, and its action is what the name chosen for that member
+(`chooseEnumTarget`: enum:map, then the transformers, then the same name) means: a member of the target enum with that
+name, or one of the three actions -/
+theorem C08_name_driven (c : Converter) (cx : Ctx) (s t : Ty) (path : List PathElem) (st st' : GState) (cases : List (S × ConstVal × EnumAction))
+    (dflt : EnumAction) (h : enumPlan c cx s t path st = .ok (.enumc cases dflt, st')) :
+    ∃ sm tm tmap, enumMembers c cx.cfg.common s = some sm ∧ enumMembers c cx.cfg.common t = some tm ∧
+      enumTransformers c sm tm cx.cfg.transformers [] = .ok tmap ∧
+      ∀ x, x ∈ cases → ∃ sd, sd ∈ sm ∧ x.1 = sd.name ∧ x.2.1 = sd.val ∧
+        ∃ s1 s2, enumAction cx path tm (chooseEnumTarget cx.cfg.enumMap tmap sd.name) s1 = .ok (x.2.2, s2) := by
+  obtain ⟨sm, tm, tmap, acc, dflt', s1, s2, s3, hsm, htm, htr, hc, _, _, _, hr⟩ := enumPlan_inv c cx s t path st st' _ h
+  cases hr
+  refine ⟨sm, tm, tmap, hsm, htm, htr, ?_⟩
+  intro x hx
+  rcases enumCases_name_driven cx path tm tmap sm _ acc s1 s2 hc x hx with h0 | h1
+  · cases h0
+  · exact h1
+
+open Gv.EnumLemmas in
+/-- an `enum:map KEY …` whose KEY is not a member of the source enum fails the generation -/
+theorem C08_map_key_must_be_member (c : Converter) (cx : Ctx) (s t : Ty) (path : List PathElem) (st : GState) (sm : List ConstDecl)
+    (hsm : enumMembers c cx.cfg.common s = some sm) (hft : (cx.fieldsTarget == t) = true)
+    (k : S) (hk : k ∈ cx.cfg.enumMap.map (·.1)) (hne : ∀ sd, sd ∈ sm → sd.name ≠ k) :
+    ∀ r st', enumPlan c cx s t path st ≠ .ok (r, st') := by
+  intro r st' h
+  obtain ⟨sm', tm, tmap, acc, dflt, s1, s2, s3, hsm', _, _, hc, _, _, hrem, _⟩ := enumPlan_inv c cx s t path st st' r h
+  rw [hsm] at hsm'; cases hsm'
+  have := enumCases_remaining cx path tm tmap sm _ acc s1 s2 hc k (by simp only [hft, if_true]; exact hk) hne
+  cases hacc : acc.remaining with
+  | nil => rw [hacc] at this; cases this
+  | cons a b => rw [hacc] at hrem; simp at hrem
+
+/-- what a transformer contributes: only pairs (source member, its replaced name) whose replaced name is a member of the target enum -/
+theorem C08_transformer_pairs_sound (c : Converter) (pat repl : S) (tm : List ConstDecl) :
+    ∀ (sm : List ConstDecl) (m : List (S × S)), transformerPairs c pat repl tm sm = .ok m →
+      ∀ n tk, (n, tk) ∈ m → ∃ sd, sd ∈ sm ∧ sd.name = n ∧ c.orc.rxReplace pat repl n = some tk ∧ tm.any (·.name == tk) = true := by
+  intro sm
+  induction sm with
+  | nil => intro m h n tk hm; unfold transformerPairs at h; cases h; cases hm
+  | cons sd rest ih =>
+    intro m h n tk hm
+    unfold transformerPairs at h
+    split at h
+    · cases h
+    · rename_i tk0 hrx
+      split at h
+      · cases h
+      · rename_i m0 hrest
+        cases h
+        split at hm
+        · rename_i hany
+          rcases List.mem_cons.1 hm with heq | hin
+          · cases heq
+            exact ⟨sd, List.mem_cons_self, rfl, hrx, hany⟩
+          · obtain ⟨sd', h1, h2, h3, h4⟩ := ih m0 hrest n tk hin
+            exact ⟨sd', List.mem_cons_of_mem _ h1, h2, h3, h4⟩
+        · obtain ⟨sd', h1, h2, h3, h4⟩ := ih m0 hrest n tk hm
+          exact ⟨sd', List.mem_cons_of_mem _ h1, h2, h3, h4⟩
+
+/-- and all of them: a source member whose replaced name is a target member is mapped by the transformer -/
+theorem C08_transformer_pairs_complete (c : Converter) (pat repl : S) (tm : List ConstDecl) :
+    ∀ (sm : List ConstDecl) (m : List (S × S)), transformerPairs c pat repl tm sm = .ok m →
+      ∀ sd tk, sd ∈ sm → c.orc.rxReplace pat repl sd.name = some tk → tm.any (·.name == tk) = true → (sd.name, tk) ∈ m := by
+  intro sm
+  induction sm with
+  | nil => intro m _ sd tk hsd; cases hsd
+  | cons sd0 rest ih =>
+    intro m h sd tk hsd hrx hany
+    unfold transformerPairs at h
+    split at h
+    · cases h
+    · rename_i tk0 hrx0
+      split at h
+      · cases h
+      · rename_i m0 hrest
+        cases h
+        rcases List.mem_cons.1 hsd with rfl | hin
+        · rw [hrx] at hrx0; cases hrx0
+          simp [hany]
+        · have := ih m0 hrest sd tk hin hrx hany
+          split
+          · exact List.mem_cons_of_mem _ this
+          · exact this
 
 end Gv.Props.C08
